@@ -15,6 +15,7 @@
      model (`kd_c05`) for the same expression and bindings.
 """
 import ast
+import hashlib
 import json
 import math
 
@@ -653,6 +654,23 @@ BIND_TORCH = [0, 1, -1, 2, 3, 5, -3, 7, 17, 0.0, 0.5, 1.5, -2.5,
               [[[1, 2], [3, 4]], [[5, 6], [7, 8]]], [[1], [2, 3]], [1, [2]]]
 
 
+def _shape(v):
+    """shape of a rectangular numeric canonical value, or None"""
+    t = v[0]
+    if t in ("i", "r"):
+        return ()
+    if t != "L":
+        return None
+    subs = [_shape(x) for x in v[1]]
+    if any(s is None for s in subs):
+        return None
+    if not subs:
+        return (0,)
+    if any(s != subs[0] for s in subs):
+        return None
+    return (len(subs),) + subs[0]
+
+
 def vkind(v):
     """class of a canonical value, for histograms and finding keys"""
     t = v[0]
@@ -663,17 +681,12 @@ def vkind(v):
     if t == "U":
         return "undef"
     if t == "L":
-        xs = v[1]
-        if not xs:
+        sh = _shape(v)
+        if sh is None:
+            return "nested"
+        if sh == (0,):
             return "empty"
-        ks = {vkind(x) for x in xs}
-        if ks <= {"int", "real"}:
-            return "vec"
-        if ks == {"vec"} and len({len(x[1]) for x in xs}) == 1:
-            return "mat"
-        if ks == {"mat"}:
-            return "rank3"
-        return "nested"
+        return {1: "vec", 2: "mat", 3: "rank3"}.get(len(sh), "rank4+")
     return t
 
 
@@ -696,6 +709,7 @@ class Pair:
         self.A = KlongInterpreter(**kw)
         self.B = KlongInterpreter(**kw)
         self.rtol = 1e-9 if backend == "numpy" else 2e-5
+        self.atol = 0.0 if backend == "numpy" else 1e-5
 
     def _run(self, k, text, stub):
         self.KI.compile_expr = _stub if stub else self.real
@@ -711,6 +725,17 @@ class Pair:
     @staticmethod
     def obs(v):
         return ("U",) if v[0] in ("U", "E") else v
+
+    def raw(self, k, text, stub):
+        """the Python object an evaluation returns (None when it raises)"""
+        self.KI.compile_expr = _stub if stub else self.real
+        try:
+            with np.errstate(all="ignore"):
+                return k(text)
+        except Exception:
+            return None
+        finally:
+            self.KI.compile_expr = self.real
 
     def bind(self, name, val, how="text"):
         if how == "api" and isinstance(val, (int, float)):
@@ -732,18 +757,52 @@ class Pair:
         return self.B[name]
 
     def same(self, a, b):
-        return veq(a, b, rtol=self.rtol)
+        return veq_tol(a, b, self.rtol, self.atol)
+
+
+def veq_tol(a, b, rtol, atol):
+    """universe.veq (kinds exact) with an absolute tolerance for reals (float32 cancellation on torch)"""
+    if atol == 0.0:
+        return veq(a, b, rtol=rtol)
+    ta, tb = a[0], b[0]
+    if ta != tb:
+        return False
+    if ta == "r":
+        x, y = a[1], b[1]
+        if math.isnan(x) or math.isnan(y):
+            return math.isnan(x) and math.isnan(y)
+        if x == y:
+            return True
+        if math.isinf(x) or math.isinf(y):
+            return False
+        return abs(x - y) <= rtol * max(abs(x), abs(y)) + atol
+    if ta == "L":
+        return len(a[1]) == len(b[1]) and all(veq_tol(x, y, rtol, atol) for x, y in zip(a[1], b[1]))
+    return veq(a, b, rtol=rtol)
 
 
 def big_ints(v):
     t = v[0]
     if t == "i":
-        return abs(v[1]) >= 2 ** 62
+        return abs(v[1]) >= 2 ** 53
     if t == "r":
         return False
     if t == "L":
         return any(big_ints(x) for x in v[1])
     return False
+
+
+def domain_ok(G, e, pair):
+    """int64 assumption: no sub-expression value (with or without the compiler) holds an integer beyond 2^53
+    (Python integers are exact, numpy's wrap, Power goes through float64)"""
+    stack = [e]
+    while stack:
+        x = stack.pop()
+        a, b = pair.both(G.text(x))
+        if big_ints(a) or big_ints(b):
+            return False
+        stack += kids(x)
+    return True
 
 
 POSITIONS = ["top", "body", "lambda", "operand"]
@@ -756,7 +815,8 @@ class Oracle:
         self.backend = backend
         self.pair = Pair(backend)
         self.defined = set()
-        self.fresh_pair = None
+        self.prev_binds = None      # bindings of the previous history step
+        self.cur_binds = None
 
     def program(self, e, pos):
         """(definitions to run once, text to evaluate)"""
@@ -765,7 +825,7 @@ class Oracle:
         if pos == "top":
             return [], t
         if pos == "body":
-            name = "f" + str(abs(hash(t)) % 10 ** 9)
+            name = "f" + hashlib.sha1(t.encode()).hexdigest()[:10]
             return [f"{name}::{{{t}}}"], f"{name}()"
         if pos == "lambda":
             vs = evars(e)
@@ -775,20 +835,11 @@ class Oracle:
                 return [], f"{{{body}}}()"
             return [], f"{{{body}}}({';'.join(vs)})"
         if pos == "operand":
-            return [], f",{t}"
+            return [], f",({t})"
         raise ValueError(pos)
 
     def domain_ok(self, e, pair):
-        """int64 assumption: no interpreted sub-expression value holds an integer beyond int64"""
-        G = self.G
-        stack = [e]
-        while stack:
-            x = stack.pop()
-            r = pair._run(pair.B, G.text(x), True)
-            if big_ints(r):
-                return False
-            stack += kids(x)
-        return True
+        return domain_ok(self.G, e, pair)
 
     def minimal(self, e, pair):
         """smallest sub-expression that already deviates at top level"""
@@ -811,7 +862,33 @@ class Oracle:
         ks = [vkind(pair._run(pair.B, G.text(k), True)) for k in kids(m)]
         kind = {"b": "dyad", "n": "negate", "r": "over", "s": "scan", "v": "var", "l": "lit"}[m[0]]
         op = m[1] if m[0] in "bnrs" else ""
+        if history and self.backend == "torch":
+            # code compiled for tensors / numbers, now run on a list that torch cannot hold (a numpy object
+            # array): one class, whatever the operator
+            for v in evars(e):
+                val = pair.B._context[self._sym(v)]
+                if isinstance(val, np.ndarray):
+                    return "torch:history:object-array-operand", m
+        if self.backend == "torch" and any(
+                (not evars(k) and depth(k) >= 1)
+                or representation(pair.raw(pair.A, G.text(k), False)) != representation(pair.raw(pair.B, G.text(k), True))
+                for k in kids(m)):
+            # the operands of the deviating node have the same value on both paths but not the same Python
+            # representation: generated code computes scalars as Python numbers, the torch interpreter as
+            # 0-d tensors (a constant sub-expression inside generated code is Python arithmetic by construction)
+            return f"torch:{'history:' if history else ''}operand-representation", m
+        if (self.backend == "torch" and m[0] == "b" and "nested" in ks and ("int" in ks or "real" in ks)
+                and (op in self.G._cmp or op == "^")):
+            # the verbs that go through vec_fn2: an interpreted torch scalar is a 0-d tensor, which vec_fn2
+            # treats as an array against an object array (len() of a 0-d tensor raises); compiled
+            # sub-expressions deliver Python numbers
+            return f"torch:{'history:' if history else ''}vec_fn2(scalar,nested)", m
         return f"{self.backend}:{'history:' if history else ''}{kind}{op}({','.join(ks)})", m
+
+    @staticmethod
+    def _sym(name):
+        from klongpy.core import KGSym
+        return KGSym(name)
 
     def check(self, e, pos, binds, history):
         ctx, pair = self.ctx, self.pair
@@ -838,12 +915,43 @@ class Oracle:
         fa, fb = fresh.both(text)
         stale = fresh.same(fa, fb)
         key, m = self.key(e, fresh if not stale else pair, stale)
+        earlier = None
+        if stale and self.prev_binds is not None:
+            # shortest history: evaluate once under the previous bindings, rebind, evaluate again
+            h2 = Pair(self.backend)
+            for n, v, how in self.prev_binds:
+                h2.bind(n, v, how)
+            for d in defs:
+                h2.define(d)
+            h2.both(text)
+            for n, v, how in binds:
+                h2.bind(n, v, how)
+            ha, hb = h2.both(text)
+            if not h2.same(ha, hb):
+                earlier = [[n, v, how] for n, v, how in self.prev_binds]
         case = dict(kind="oracle", backend=self.backend, position=pos, expr=self.G.text(e), program=text,
                     defs=defs, bindings=[[n, klit(from_py(v)), how] for n, v, how in binds],
+                    values=[[n, v, how] for n, v, how in binds], earlier_values=earlier,
                     history=history, minimal=self.G.text(m))
         ctx.oracle_fail(key, case, f"interpreted: {show_obs(b)}", f"compiled: {show_obs(a)}",
                         "the value with the expression compiler enabled differs from the tree-walking interpreter's")
         return False
+
+
+def representation(x):
+    """Python-level representation class of a value (not its content)"""
+    tn = type(x).__name__
+    if x is None:
+        return ("none",)
+    if isinstance(x, (bool, int, float)):
+        return ("py", "int" if isinstance(x, (bool, int)) else "float")
+    if tn == "Tensor":
+        return ("tensor", str(x.dtype), x.dim())
+    if isinstance(x, np.ndarray):
+        return ("ndarray", x.dtype.kind, x.ndim)
+    if isinstance(x, np.generic):
+        return ("npscalar", x.dtype.kind)
+    return (tn,)
 
 
 def show_obs(v):
@@ -869,12 +977,20 @@ def ir_trees(G, rng, quick):
         return out
 
     l0 = [("literal", 1), ("var", "_v0")]
-    d1 = l0 + layer(l0)
-    d2 = layer(d1)
-    trees = d1 + d2
     l0b = [("literal", 2.5), ("literal", 1e100), ("literal", 3), ("var", "_v1"), ("var", "_v2")]
+    d1 = l0 + layer(l0)
+    if quick:
+        # one representative per node kind and operator as children of every root, then a sampled third layer
+        reps = {}
+        for t in d1:
+            reps.setdefault((t[0], t[1] if t[0] not in ("literal", "var", "negate") else ""), t)
+        d2 = layer(list(reps.values()))
+        K = 20
+    else:
+        d2 = layer(d1)          # exhaustive depth 2
+        K = 120
+    trees = d1 + d2
     d1b = layer(l0 + l0b)
-    K = 24 if quick else 120
     pool = rng.sample(d2, K // 2) + rng.sample(d1b, K // 2) + l0b
     trees += layer(pool)
     return trees
@@ -964,7 +1080,7 @@ def model_case(ctx, G, drv, pair, e, binds):
     else:
         mv = ("U",) if mi == "raised" else Pair.obs(from_wire(mi))
         if not veq(mv, interp, rtol=1e-9):
-            if big_ints(interp) or big_ints(mv):
+            if big_ints(interp) or big_ints(mv) or not domain_ok(G, e, pair):
                 ctx.bump("model:outside(int64)")
             else:
                 ctx.mismatch("Klong.C05.Interp.eval vs interpreter (compile_expr stubbed)", case, show_obs(mv), show_obs(interp))
@@ -989,13 +1105,16 @@ def model_case(ctx, G, drv, pair, e, binds):
             ctx.bump("model:outside(compiled)")
         elif mc == "raised":
             if not raised:
-                ctx.mismatch("Klong.C05.PyExpr.eval vs compiled callable (model raises)", case, "raised", show_obs(rv))
-                return
+                if not domain_ok(G, e, pair):
+                    ctx.bump("model:outside(int64)")
+                else:
+                    ctx.mismatch("Klong.C05.PyExpr.eval vs compiled callable (model raises)", case, "raised", show_obs(rv))
+                    return
             ctx.bump("model:compiled-raises")
         else:
             mv = Pair.obs(from_wire(mc))
             if raised or not veq(mv, rv, rtol=1e-9):
-                if not raised and (big_ints(rv) or big_ints(mv)):
+                if (not raised and (big_ints(rv) or big_ints(mv))) or not domain_ok(G, e, pair):
                     ctx.bump("model:outside(int64)")
                 else:
                     ctx.mismatch("Klong.C05.PyExpr.eval vs compiled callable", case, show_obs(mv),
@@ -1019,14 +1138,34 @@ WITNESSES = [
     dict(id="power-kind-vector", binds=[("a", [0.0, 2.0], "text")], expr=("b", "^", ("v", "a"), ("l", 2))),
     dict(id="divide-array-scalar-zero", binds=[("a", [0, 0], "text")], expr=("b", "%", ("l", 4), ("r", "+", ("v", "a")))),
     dict(id="compare-nested", binds=[("a", [1, [2]], "text")], expr=("b", "=", ("v", "a"), ("l", 0))),
+    dict(id="negate-stacking-object-array", binds=[("a", [[], [1]], "text")],
+         expr=("b", "-", ("b", "-", ("l", 2), ("b", "*", ("l", 3), ("v", "a"))), ("n", "-", ("s", "*", ("v", "a"))))),
 ]
 
 
 # =========================================================================== entry
 
+def tables_or_fallback(ctx):
+    """the regenerated tables; when the translator does not recognise the code any more (already reported as
+    a broken tie by extract), the operator sets are read from the imported module so that the oracle still runs"""
+    x = getattr(ctx, "_c05_tables", None)
+    if x is not None:
+        return x
+    try:
+        return extract_all()
+    except Exception as e:
+        if not any(b.startswith("translator:") for b in ctx.broken):
+            ctx.broken.append(f"translator: {type(e).__name__}: {e}")
+        import klongpy.compiler as kc
+        return dict(compiler=dict(arith=sorted(getattr(kc, "_ARITH_OPS", {"+", "-", "*", "%", "^"})),
+                                  cmp=sorted(getattr(kc, "_CMP_OPS", {"<", "=", ">"})),
+                                  rs=sorted(getattr(kc, "_REDUCE_SCAN_OPS", {"+", "*", "|", "&"})),
+                                  negate="-", reduce_adv="/", scan_adv="\\"))
+
+
 def run(ctx):
     quick = ctx.tier == "quick"
-    x = getattr(ctx, "_c05_tables", None) or extract_all()
+    x = tables_or_fallback(ctx)
     G = Grammar(x)
     G._arith, G._cmp = x["compiler"]["arith"], x["compiler"]["cmp"]
     drv = Driver("c05") if getattr(ctx, "driver_ok", True) else None
@@ -1037,8 +1176,9 @@ def run(ctx):
                 "reals, vectors, matrices, rank 3, nested, empty; rebinding changes type/shape); both backends. "
                 "distinct = distinct (backend, position, program, bindings, history step); non-trivial = depth >= 1")
     ctx.assumptions += [
-        "integers stay inside int64 (Python integers in generated code are unbounded, numpy's wrap): cases in which an "
-        "interpreted sub-expression value reaches 2^62 are counted as outside-domain, not compared",
+        "integers stay inside int64 / float64's exact range (Python integers in generated code are unbounded, numpy's "
+        "wrap, Power goes through float64): cases in which a sub-expression value reaches 2^53 are counted as "
+        "outside-domain, not compared",
         "torch: float32 arithmetic of the torch interpreter vs Python floats in generated code compared within 2e-5 relative; "
         "1e100 / 1e-7 are not in the torch universe",
         "values nested deeper than one level of raggedness are outside the Lean model (still run through the two-interpreter oracle)",
@@ -1059,6 +1199,7 @@ def run_backend(ctx, G, drv, backend, quick):
     orc = Oracle(ctx, G, backend)
 
     def rebind_all(binds):
+        orc.prev_binds, orc.cur_binds = orc.cur_binds, binds
         for n, v, how in binds:
             orc.pair.bind(n, v, how)
 
@@ -1099,7 +1240,7 @@ def run_backend(ctx, G, drv, backend, quick):
                     model_case(ctx, G, drv, orc.pair, e, binds)
 
     # 3. sampled deeper expressions, four positions, rebinding histories
-    n_expr = (220 if quick else 5000) if backend == "numpy" else (80 if quick else 1500)
+    n_expr = (300 if quick else 5000) if backend == "numpy" else (80 if quick else 1500)
     maxd = 2 if quick else 3
     for i in range(n_expr):
         d = 2 if (quick or rng.random() < 0.5) else maxd
@@ -1119,7 +1260,7 @@ def run_backend(ctx, G, drv, backend, quick):
 
 
 def replay(ctx, case):
-    x = extract_all()
+    x = tables_or_fallback(ctx)
     G = Grammar(x)
     G._arith, G._cmp = x["compiler"]["arith"], x["compiler"]["cmp"]
     c = case.get("case", case)
@@ -1127,8 +1268,14 @@ def replay(ctx, case):
         run(ctx)
         return
     pair = Pair(c["backend"])
-    for n, lit, how in c["bindings"]:
-        pair.define(f"{n}::{lit}")
+    if c.get("earlier_values"):
+        for n, v, how in c["earlier_values"]:
+            pair.bind(n, v, how)
+        for d in c.get("defs", []):
+            pair.define(d)
+        pair.both(c["program"])
+    for n, v, how in c["values"]:
+        pair.bind(n, v, how)
     for d in c.get("defs", []):
         pair.define(d)
     a, b = pair.both(c["program"])
